@@ -199,6 +199,10 @@ Record oracle := {
   schema_enc : list bool    (* ... of the decrypted assertions, in order *)
 }.
 
+(* Python `x in y` on two str: x occurs in y as a contiguous run (bytes of the UTF-8 forms: the same thing) *)
+Fixpoint is_infix (x y : string) : bool :=
+  String.prefix x y || match y with EmptyString => false | String _ r => is_infix x r end.
+
 (* switches: the code as it is = as_coded (all on).  They exist to state the necessity lemmas and to keep
    the behaviour before the two repairs (knobs_v0) for the refutation theorems. *)
 Record knobs := {
@@ -217,20 +221,22 @@ Record knobs := {
   k_lax : bool         (* 32211c52 (C02-F3): the uniqueness test of _is_the_only_signature_child sees every element that the
                           engine's --id-attr registration matches (also the un-namespaced ones of that local name);
                           false = before: the namespace-qualified elements of the node name only *);
-  k_one : bool         (* 6a3bb24f (C02-F4): parse_assertion refuses more than one processed assertion (self.assertions)
+  k_one : bool;        (* 6a3bb24f (C02-F4): parse_assertion refuses more than one processed assertion (self.assertions)
                           unless the Response itself carries a - then verified - signature *)
+  k_isseq : bool       (* (round 6) the issuer test of _assertion compares the two stripped texts for EQUALITY (`!=`);
+                          false = the envelope's Issuer may be any SUBSTRING of the assertion's (`not in`) *)
 }.
 Definition as_coded : knobs :=
-  {| k_uri := true; k_uniq := true; k_nodeid := true; k_onesig := true; k_issuer := true; k_iter := true; k_exact := true; k_lax := true; k_one := true |}.
+  {| k_uri := true; k_uniq := true; k_nodeid := true; k_onesig := true; k_issuer := true; k_iter := true; k_exact := true; k_lax := true; k_one := true; k_isseq := true |}.
 (* before 6a3bb24f *)
 Definition knobs_v2 : knobs :=
-  {| k_uri := true; k_uniq := true; k_nodeid := true; k_onesig := true; k_issuer := true; k_iter := true; k_exact := true; k_lax := true; k_one := false |}.
+  {| k_uri := true; k_uniq := true; k_nodeid := true; k_onesig := true; k_issuer := true; k_iter := true; k_exact := true; k_lax := true; k_one := false; k_isseq := true |}.
 (* before 32211c52 *)
 Definition knobs_v1 : knobs :=
-  {| k_uri := true; k_uniq := true; k_nodeid := true; k_onesig := true; k_issuer := true; k_iter := true; k_exact := true; k_lax := false; k_one := false |}.
+  {| k_uri := true; k_uniq := true; k_nodeid := true; k_onesig := true; k_issuer := true; k_iter := true; k_exact := true; k_lax := false; k_one := false; k_isseq := true |}.
 (* before e81db11e and 64feb908 *)
 Definition knobs_v0 : knobs :=
-  {| k_uri := true; k_uniq := true; k_nodeid := true; k_onesig := false; k_issuer := false; k_iter := true; k_exact := true; k_lax := false; k_one := false |}.
+  {| k_uri := true; k_uniq := true; k_nodeid := true; k_onesig := false; k_issuer := false; k_iter := true; k_exact := true; k_lax := false; k_one := false; k_isseq := true |}.
 
 (* ------------------------------------------------------------------ the signature engine *)
 (* pysaml2 hands the document to an external signature engine.  The engine it is written for is xmlsec1
@@ -704,7 +710,9 @@ Section Crypto.
   Definition issuer_check (K : knobs) (root a : tree) : bool :=
     negb (k_issuer K)
     || (negb (match single ISSUER root with Some i => is_empty (text i) | None => false end)
-        && (is_empty (issuer_text root) || String.eqb (issuer_text root) (issuer_text a))).
+        && (is_empty (issuer_text root)
+            || (if k_isseq K then String.eqb (issuer_text root) (issuer_text a)
+                else is_infix (issuer_text root) (issuer_text a)))).
 
   (* _assertion() signature part over a list of assertions of document doc (root = the Response as
      received).  Result: None = rejected; Some (all carried a signature, digests) *)
